@@ -51,7 +51,11 @@ pub axiom fn ax_mutref_cmp()
                  contract="""requires
     it >= 1,
 ensures
-    res == gd_spec(it, discount),
+    // (the value as a real number: operand order inside the formula is immaterial; the three special
+    // exponents give the exact constants)
+    rv(res) == rv(gd_spec(it, discount)),
+    feq(discount, fneginf()) ==> res == 0.0f64, !feq(discount, fneginf()) && feq(discount, 0.0f64) ==> res == 0.5f64,
+    !feq(discount, fneginf()) && !feq(discount, 0.0f64) && feq(discount, finf()) ==> res == 1.0f64,
     // general branch: t^a / (t^a + 1) with t^a := exp(a ln t)
     !feq(discount, fneginf()) && !feq(discount, 0.0f64) && !feq(discount, finf()) ==> is_discount(res, it, discount), // @ob C08.V.gen_discount.value""",
                  entry="""broadcast use fl; broadcast use ideal; broadcast use ideal_casts; broadcast use ideal_libm;
@@ -104,7 +108,7 @@ ensures
                  entry="broadcast use fl; broadcast use ideal;\nproof { ax_obeys(); ax_rv_lits(); ax_mutref_cmp(); }\nlet ghost s0 = cum_reg@;\nlet ghost n = cum_reg@.len();",
                  loops={0: dict(kind="for", binder="it0", head="""invariant
     it0.snapshot@.remaining().len() == n, 0 <= it0.index@ <= n,
-    pos == gd_spec(it, self.pos_regret), neg == gd_spec(it, self.neg_regret),
+    rv(pos) == rv(gd_spec(it, self.pos_regret)), rv(neg) == rv(gd_spec(it, self.neg_regret)),
     forall|i: int| 0 <= i < n ==> *(#[trigger] it0.snapshot@.remaining()[i]) == s0[i],
     forall|i: int| 0 <= i < it0.index@ ==> rv(*final(#[trigger] it0.snapshot@.remaining()[i])) ==
         (if rv(s0[i]) > 0real { rv(s0[i]) * rv(pos) } else if rv(s0[i]) < 0real { rv(s0[i]) * rv(neg) } else { rv(s0[i]) }),
